@@ -32,6 +32,8 @@ pub struct Runner {
     pub last_written_len: u64,
     pub prev_drift: i128,
     pub prev_keys: std::collections::HashMap<Vec<u8>, u64>,
+    /// policy mode: the records stored before the request being judged (from the dump behind the previous request)
+    pub prev_recs: Vec<(Vec<u8>, crate::sut::DumpRec)>,
     pub last_req: Option<(wire::ReqHdr, wire::Cmd, u16, bool)>,
     pub replaying: bool,
     pub drift_hist: BTreeMap<String, u64>,
@@ -78,6 +80,7 @@ impl Runner {
             last_written_len: 0,
             prev_drift: 0,
             prev_keys: Default::default(),
+            prev_recs: vec![],
             last_req: None,
             replaying: false,
             drift_hist: BTreeMap::new(),
@@ -139,6 +142,7 @@ impl Runner {
                 self.last_written_len = 0;
                 self.prev_drift = 0;
                 self.prev_keys.clear();
+                self.prev_recs.clear();
                 self.last_req = None;
                 "ok".to_string()
             }
@@ -326,6 +330,33 @@ impl Runner {
         } else if out.starts_with("panic") {
             self.oracle.violations.push(oracle::Violation { props: vec!["C10"], line: self.ops.len(), msg: format!("request {} : {}", hex(frame), out) });
         }
+        // C02 under eviction policy random: a mutation carrying a CAS that is not the current CAS of the live item it
+        // addresses is refused with 'key exists' — unless the eviction scan of this very request chose that item
+        if h.cas != 0 {
+            let key: Option<&Vec<u8>> = match &cmd {
+                wire::Cmd::Store { key, .. } | wire::Cmd::Concat { key, .. } | wire::Cmd::Delta { key, .. } | wire::Cmd::Delete { key, .. } => Some(key),
+                _ => None,
+            };
+            if let Some(k) = key {
+                let now = self.now;
+                if let Some((_, rec)) = self.prev_recs.iter().find(|(pk, _)| pk == k) {
+                    let live = rec.ttl == 0 || rec.ts + rec.ttl as u64 > now;
+                    let victim = log.iter().any(|e| matches!(e, crate::sut::RecEv::Evicted(ek, _) if ek == k));
+                    let numeric_needed = matches!(cmd, wire::Cmd::Delta { .. });
+                    let non_numeric = numeric_needed && std::str::from_utf8(&rec.value).ok().and_then(|t| t.parse::<u64>().ok()).is_none();
+                    if live && !victim && rec.cas != h.cas && status != 0x0002 && !(non_numeric && status == 0x0006) && status != 0xffff {
+                        self.oracle.violations.push(oracle::Violation {
+                            props: vec!["C02"],
+                            line: self.ops.len(),
+                            msg: format!(
+                                "under eviction policy random a mutation (opcode {:#x}) carrying CAS {} on the live item {} whose current CAS is {} was answered with status {:#x}, not 'key exists' (inner calls: {:?})",
+                                h.opcode, h.cas, wire::hexd(k), rec.cas, status, log
+                            ),
+                        });
+                    }
+                }
+            }
+        }
         let set_called = log.iter().any(|e| matches!(e, crate::sut::RecEv::Set(_)));
         if status == 0 && set_called {
             self.cur_mut_ok = true;
@@ -387,6 +418,7 @@ impl Runner {
         }
         self.prev_drift = drift;
         self.prev_keys = keys;
+        self.prev_recs = recs.to_vec();
     }
 
     pub fn finish(&mut self) {
@@ -446,9 +478,9 @@ impl Runner {
         let mut master = Rng::new(seed ^ 0x9011c4);
         for _ in 0..count {
             let mut rng = master.fork();
-            let mem: u64 = if profile == "C14" { *rng.pick(&[10u64, 40, 60, 100, 100, 150, 250, 400, 1000]) } else { *rng.pick(&[2000u64, 5000, 20000]) };
+            let mem: u64 = if profile == "C14" || profile == "C02" { *rng.pick(&[10u64, 40, 60, 100, 100, 150, 250, 400, 1000]) } else { *rng.pick(&[2000u64, 5000, 20000]) };
             self.exec(&format!("newp 4096 {}", mem));
-            let mut g = GenState::new(&mut rng, &p, if profile == "C14" { 400 } else { 300 });
+            let mut g = GenState::new(&mut rng, &p, if profile == "C14" || profile == "C02" { 400 } else { 300 });
             let n = rng.range(p.len.0, p.len.1);
             for _ in 0..n {
                 match g.next_op(&mut rng, &p) {
